@@ -312,9 +312,19 @@ class World:
             kb = env.f[0].d.get(name)
             return clone_value(kb.v) if kb is not None else None
 
+        def env_setter(name, v):
+            I.call_raw("scheduler::context::Context::set_env::<serde_json::Value>", [Ptr([ctx], 0), name, v], None)
+
+        def proc_setter(name, v):
+            m = MapV(True, "Map")
+            m.d[name] = KeyBox(name, v)
+            proc = self.field(ctx, "Context", "proc")
+            I.call_raw("scheduler::process::process::Process::set_data", [Ptr(proc.c, 0), Ptr([Agg("model::vars::Vars", [m])], 0)], None)
+            vars_cache.clear()
+
         self.eval_log.append(expr)
         try:
-            v = JsEval(I, lookup, setter, env_lookup).run(expr)
+            v = JsEval(I, lookup, setter, env_lookup, env_setter, proc_setter).run(expr)
         except JsException as e:
             d = I.p.src.enum_variant("ActError", "Exception")
             return err(Enum("ActError", d, ["", str(e)], "Exception"))
